@@ -91,6 +91,7 @@ type scope struct {
 	closed      atomic.Bool
 	done        chan struct{}
 	wg          sync.WaitGroup
+	closing     sync.WaitGroup // root only: released once Close has made its final report
 	root        bool
 	testScope   bool
 }
@@ -187,6 +188,8 @@ func newRootScope(opts ScopeOptions, interval time.Duration) *scope {
 	// NB(r): Take a copy of the tags on creation
 	// so that it cannot be modified after set.
 	s.tags = s.copyAndSanitizeMap(opts.Tags)
+
+	s.closing.Add(1)
 
 	// Register the root scope
 	s.registry = newScopeRegistryWithShardCount(s, opts.registryShardCount, opts.OmitCardinalityMetrics, opts.CardinalityMetricsTags)
@@ -522,6 +525,11 @@ func (s *scope) Close() error {
 	// n.b. Once this flag is set, the next scope report will remove it from
 	//      the registry and clear its metrics.
 	if !s.closed.CAS(false, true) {
+		if s.root {
+			// n.b. Another caller is closing the root: return only once
+			//      its final report has been made.
+			s.closing.Wait()
+		}
 		return nil
 	}
 
@@ -532,6 +540,7 @@ func (s *scope) Close() error {
 		//      overlaps with or outlives the final report below.
 		s.wg.Wait()
 		s.reportRegistry()
+		s.closing.Done()
 		s.registry.purgeIfRootClosed()
 		if closer, ok := s.baseReporter.(io.Closer); ok {
 			return closer.Close()
